@@ -373,29 +373,29 @@ Proof. reflexivity. Qed.
 
 (* U: insert_deriv establishes the derivative clauses and keeps the object well-formed *)
 Theorem insert_deriv_wf t p k d p' :
-  wf t p = true -> wf_core t (s_core d) = true -> ins_guard (s_core p) (s_core d) = true ->
+  wf t p = true -> wf_core t (s_core d) = true ->
   insert_deriv t p k d = Some p' -> wf t p' = true /\ s_core p' = s_core p.
 Proof.
-  intros Hp Hd Hg E. unfold insert_deriv in E.
+  intros Hp Hd E. unfold insert_deriv in E.
   destruct (negb (ci_derivs (t (c_cls (s_core p))))) eqn:EDk; [discriminate|].
   apply negb_false_iff in EDk.
   destruct (negb (leqb (c_numer (s_core p)) (c_numer (s_core d)))) eqn:ENu; [discriminate|].
   apply negb_false_iff in ENu. apply leqb_eq in ENu.
   destruct (as_float_core t (s_core d)) as [d1|] eqn:EF; [|discriminate].
   destruct (as_float_props t _ _ Hd EF) as (W1 & F1 & S1 & N1 & D1).
-  set (d2 := if c_ro (s_core p) && negb (c_ro d1) then freeze d1 else d1) in *.
-  assert (W2 : wf_core t d2 = true).
-  { unfold d2. destruct (c_ro (s_core p) && negb (c_ro d1)); auto. apply freeze_wf; auto. }
-  assert (F2 : is_float d2 = true).
-  { unfold d2. destruct (c_ro (s_core p) && negb (c_ro d1)); auto. }
-  assert (S2 : c_shape d2 = c_shape d1 /\ c_numer d2 = c_numer d1 /\ c_denom d2 = c_denom d1).
-  { unfold d2. destruct (c_ro (s_core p) && negb (c_ro d1)); auto. }
-  assert (R2 : c_ro (s_core p) = true -> c_ro d2 = true).
-  { intro Hr. unfold d2. rewrite Hr. simpl. destruct (c_ro d1) eqn:R1; simpl; auto. }
-  destruct S2 as (S2 & N2 & D2).
-  destruct (broadcast_core d2 (c_shape (s_core p))) as [d3|] eqn:EB; [|discriminate].
-  pose proof (broadcast_wf t _ _ _ W2 EB) as W3.
-  destruct (broadcast_props _ _ _ (wf_core_ro t _ W2) EB) as (S3 & N3 & F3 & R3).
+  destruct (broadcast_core d1 (c_shape (s_core p))) as [d2|] eqn:EB; [|discriminate].
+  pose proof (broadcast_wf t _ _ _ W1 EB) as W2.
+  destruct (broadcast_props _ _ _ (wf_core_ro t _ W1) EB) as (S2 & N2 & F2 & _).
+  set (d3 := if c_ro (s_core p) && negb (c_ro d2) then freeze d2 else d2) in *.
+  assert (W3 : wf_core t d3 = true).
+  { unfold d3. destruct (c_ro (s_core p) && negb (c_ro d2)); auto. apply freeze_wf; auto. }
+  assert (F3 : is_float d3 = is_float d2).
+  { unfold d3. destruct (c_ro (s_core p) && negb (c_ro d2)); auto. }
+  assert (S3 : c_shape d3 = c_shape d2 /\ c_numer d3 = c_numer d2).
+  { unfold d3. destruct (c_ro (s_core p) && negb (c_ro d2)); auto. }
+  assert (R3 : c_ro (s_core p) = true -> c_ro d3 = true).
+  { intro Hr. unfold d3. rewrite Hr. simpl. destruct (c_ro d2) eqn:R2; simpl; auto. }
+  destruct S3 as (S3 & N3).
   inversion E; subst p'; clear E. split; [|reflexivity].
   unfold wf in *. simpl. split_andb; auto.
   - rewrite EDk. apply implb_true_r.
@@ -405,40 +405,25 @@ Proof.
   - rewrite forallb_app. apply andb_true_iff. split.
     + apply forallb_remove_key. assumption.
     + simpl. rewrite andb_true_r. unfold wf_deriv. simpl. split_andb; auto.
-      * rewrite F3. exact F2.
-      * rewrite S3. apply leqb_refl.
+      * rewrite F3, F2. exact F1.
+      * rewrite S3, S2. apply leqb_refl.
       * rewrite N3, N2, N1, <- ENu. apply leqb_refl.
       * destruct (c_ro (s_core p)) eqn:Hr; simpl; auto.
-        destruct (R3 (R2 eq_refl)) as [HH|(HH1 & HH2 & HH3)]; auto.
-        exfalso. unfold ins_guard in Hg. rewrite Hr in Hg. rewrite HH1 in Hg. simpl in Hg.
-        rewrite S2, S1 in HH2. rewrite N2, D2, N1, D1 in HH3. rewrite HH3 in Hg. simpl in Hg.
-        destruct (c_shape (s_core d)); [congruence|]. simpl in Hg. discriminate.
-Qed.
-
-Lemma ins_guard_same_shape pc dc : c_shape dc = c_shape pc -> ins_guard pc dc = true.
-Proof.
-  intro H. unfold ins_guard. rewrite H. destruct (c_ro pc); simpl; auto.
-  destruct (is_nil (c_shape pc)); simpl; auto.
-Qed.
-Lemma ins_guard_nonnil pc dc : c_shape pc <> [] -> ins_guard pc dc = true.
-Proof.
-  intro H. unfold ins_guard. destruct (c_ro pc); simpl; auto.
-  destruct (c_shape pc); [congruence|]. reflexivity.
 Qed.
 
 (* re-inserting a list of well-formed derivative cores of the parent's shape *)
 Lemma insert_all_wf t : forall l p p',
   wf t p = true ->
-  (forall kd, In kd l -> wf_core t (d_core (snd kd)) = true /\ c_shape (d_core (snd kd)) = c_shape (s_core p)) ->
+  (forall kd, In kd l -> wf_core t (d_core (snd kd)) = true) ->
   insert_all t p l = Some p' -> wf t p' = true /\ s_core p' = s_core p.
 Proof.
   induction l as [|[k d] l IH]; intros p p' Hp Hl E; simpl in E.
   - inversion E; subst. auto.
   - destruct (insert_deriv t p k (dsnap_as_snapshot d)) as [p1|] eqn:E1; [|discriminate].
-    destruct (Hl (k, d) (or_introl eq_refl)) as [Hw Hs]. simpl in Hw, Hs.
-    destruct (insert_deriv_wf t p k (dsnap_as_snapshot d) p1 Hp Hw (ins_guard_same_shape _ _ Hs) E1) as [W1 C1].
+    pose proof (Hl (k, d) (or_introl eq_refl)) as Hw. simpl in Hw.
+    destruct (insert_deriv_wf t p k (dsnap_as_snapshot d) p1 Hp Hw E1) as [W1 C1].
     destruct (IH p1 p' W1) as [W2 C2]; auto.
-    + intros kd Hkd. rewrite C1. apply Hl. right. exact Hkd.
+    + intros kd Hkd. apply Hl. right. exact Hkd.
     + split; auto. congruence.
 Qed.
 
@@ -485,9 +470,7 @@ Proof.
     destruct (insert_deriv t acc k (bare dc)) as [acc'|] eqn:EI; [|discriminate].
     pose proof (Hl (k, d) (or_introl eq_refl)) as Hw. simpl in Hw.
     pose proof (broadcast_wf t _ _ _ Hw EB) as Wdc.
-    assert (G : ins_guard (s_core acc) (s_core (bare dc)) = true).
-    { apply ins_guard_nonnil. rewrite Hs. exact Hsh. }
-    destruct (insert_deriv_wf t acc k (bare dc) acc' Ha Wdc G EI) as [W1 C1].
+    destruct (insert_deriv_wf t acc k (bare dc) acc' Ha Wdc EI) as [W1 C1].
     apply (IH acc' p'); auto.
     + intros kd Hkd. apply Hl. right. exact Hkd.
     + rewrite C1. exact Hs.
@@ -510,8 +493,8 @@ Proof.
     destruct (insert_all_wf t (s_derivs s) (bare (s_core s)) s1 (wf_bare t _ Hc)) as [W _]; auto.
     { intros kd Hkd. destruct (Hd kd Hkd) as (A & B & _). simpl. auto. }
     inversion E; subst. apply delete_wf; auto.
-  - simpl in G. apply andb_true_iff in G. destruct G as [G1 G2].
-    destruct (insert_deriv_wf t s k d s' H G1 G2 E) as [W _]. exact W.
+  - simpl in G.
+    destruct (insert_deriv_wf t s k d s' H G E) as [W _]. exact W.
   - (* as_readonly *)
     inversion E; subst; clear E. unfold wf in *. simpl. split_andb; auto.
     + apply freeze_wf; auto.
@@ -524,7 +507,7 @@ Proof.
     match type of E with insert_all _ _ ?ll = _ =>
       destruct (insert_all_wf t ll (bare (thaw_copy (s_core s))) s' (wf_bare t _ (thaw_wf t _ Hc)) ) as [W _]; auto end.
     intros kd Hkd. apply in_map_iff in Hkd. destruct Hkd as (kd0 & <- & Hkd0). simpl.
-      destruct (Hd kd0 Hkd0) as (A & B & _). split; [apply thaw_wf; auto | exact B].
+      destruct (Hd kd0 Hkd0) as (A & B & _). apply thaw_wf; auto.
   - inversion E; subst. apply wf_bare. apply thaw_wf; auto.
   - (* broadcast_to *)
     destruct (leqb (c_shape (s_core s)) sh); [inversion E; subst; auto|].
